@@ -121,7 +121,12 @@ def run(case, choices):
         if term[0] == "reject" and len(term) > 3 and term[3] is not None and 0 < len(obs) <= len(ref):
             pos = ref[len(obs) - 1]["end"]
             legit = data[pos:].startswith(("%s %s " % (term[3].get("method"), term[3].get("uri"))).encode("latin-1", "replace"))
-        if term[0] == "reject" and term[1] == "ReadInterrupted" and len(term) > 3 and term[3] is not None and not legit:
+        # (a request whose head the reference does not accept at all - the known te-without-final-chunked finding hands such requests over -
+        #  has no reference framing to compare the next request's position with: not judged here)
+        beyond_ref = len(obs) > len(ref)
+        if beyond_ref:
+            res.probes["interrupted_read_of_a_request_the_reference_rejects"] += 1
+        if term[0] == "reject" and term[1] == "ReadInterrupted" and len(term) > 3 and term[3] is not None and not legit and not beyond_ref:
             res.violate("C01:request-after-interrupted-body-read",
                         "a timer of the application fired while wsgi.input was blocked in recv() (request %d); the application went on, the "
                         "worker asked for the next request and the parser yielded %r out of the unread body instead of ending the connection; "
